@@ -31,7 +31,8 @@ func HarnessRedeployTraffic() {
 		arrival := vIntRange("arrival"+vItoa(c), 0, vParam("arrival_points", 8))
 		svcTime := vDur("service_time" + vItoa(c))
 		vAssume(svcTime < drainTimeout) // requests in flight finish within the drain timeout
-		vProxyPlans[c] = &vProxyPlan{service: svcTime}
+		// (some clients merely offer a protocol upgrade that never happens: still an ordinary request)
+		vProxyPlans[c] = &vProxyPlan{service: svcTime, upgradeHeader: vChoose("upgrade_header"+vItoa(c), 2) == 1}
 		go func() {
 			vArriveAfter(arrival)
 			vDoRequest(root, c, "h", "/")
